@@ -211,7 +211,7 @@ func main() {
 
 	// ---- conversions and passes
 	type site struct{ file, fn, kind, expr, ctx string }
-	var convs, passes []site
+	var convs, passes, methods []site
 	// a directory is analysed when one of its files imports configopaque or a package that declares a census field
 	// (census field names are resolved by name: elsewhere a selector `.Headers` is some other type's field)
 	censusPkg := map[string]bool{}
@@ -368,6 +368,20 @@ func main() {
 						}
 						return true
 					}
+					// a METHOD of the opaque type called on an opaque value (x.String(), x.MarshalText() …) yields the marker, never
+					// the secret: code that needs the text must convert; such a call on a use path sends / stores "[REDACTED]"
+					if sel, ok := x.Fun.(*ast.SelectorExpr); ok {
+						if s := shapeOf(sel.X); s != nil && s.kind == "opq" {
+							ctx := "-"
+							for i := len(stack) - 2; i >= 0; i-- {
+								if c, ok := stack[i].(*ast.CallExpr); ok {
+									ctx = str(c.Fun)
+									break
+								}
+							}
+							methods = append(methods, site{sf.rel, fname, "method", str(x), ctx})
+						}
+					}
 					if id, ok := x.Fun.(*ast.Ident); ok && (id.Name == "len" || id.Name == "cap" || id.Name == "make" || id.Name == "delete") {
 						return true
 					}
@@ -459,6 +473,7 @@ func main() {
 	}
 	emit("conversions", "every conversion of an opaque value to its text: `string(x)` / `[]byte(x)`; `ctx` = the call the text is handed to", convs)
 	emit("passes", "every call that receives a still-typed opaque value or a container of them; `ctx` = the callee", passes)
+	emit("methodCalls", "every call of a method of the opaque type on an opaque value outside package configopaque (it yields the marker)", methods)
 	emit("renders", "every log / format call that is handed a whole configuration value (argument named cfg / config / conf …); `ctx` = the callee", renders)
 	fmt.Printf("end OtelVerif.Gen.OpaqueCensus\n")
 }
